@@ -4,7 +4,7 @@ import os, re, subprocess
 V = os.path.dirname(os.path.dirname(os.path.abspath(__file__)))
 p = os.path.join(V, "DESIGN.md")
 s = open(p).read()
-for tag, tool in (("MUTATION-TABLE", "mutation_table.py"), ("FINDINGS", "findings_summary.py")):
+for tag, tool in (("MUTATION-TABLE", "mutation_table.py"), ("FINDINGS", "findings_summary.py"), ("COST-TABLE", "cost_table.py")):
     out = subprocess.check_output([os.path.join(V, "tools", tool)], text=True)
     s = re.sub(r"<!-- %s-BEGIN -->.*?<!-- %s-END -->" % (tag, tag), lambda m: "<!-- %s-BEGIN -->\n%s<!-- %s-END -->" % (tag, out, tag), s, flags=re.S)
 open(p, "w").write(s)
